@@ -2,6 +2,7 @@ import CLModel.Proto
 import CLModel.Compare.AddRemove
 import CLModel.Compare.AddRemoveObj
 import CLModel.Compare.KeyedTuple
+import CLModel.Compare.C20Heap
 namespace Ops.C20
 open Proto
 
@@ -125,6 +126,124 @@ def opKT (toks : List String) : String :=
     | _, _ => "bad-args"
   | _ => "bad-args"
 
+/-! ### round 5: an INTERACTION history over a heap of objects (`Compare/C20Heap.lean`)
+
+Objects are numbered per kind in order of creation: key lists `L0, L1, …` (every `nl`, every `kl`, and
+every `sl`/`sr` whose argument is not a list — that list is `ar.left` / `ar.right`), entity lists
+`M0, …` (`ne`, `vl`, `il`), KeyedTuples `T0, …` (`kt:`), AddRemoves `A0, …` (`ar`).
+
+    nl:1,2          L = [k1, k2]                     ne:1,2        M = [E(k1), E(k2)]
+    ml0:a3 ml0:p ml0:r ml0:c ml0:i3                  L0.append(k3) / pop / reverse / clear / insert(0, k3)
+    me0:a3 …                                         the same on M0 (a new entity)
+    kt:l:1,2 (kt:t: kt:g:)   KeyedTuple([E…]) from a list / tuple / generator
+    kt:m0  KeyedTuple(M0)    kt:v0  KeyedTuple(T0.values())   kt:i0  KeyedTuple(v for _, v in T0.items())
+    kt:c0,1  KeyedTuple(T0 + T1)
+    ar                       AddRemove()
+    sl0:L1  A0.set_left(L1)  sl0:K2  A0.set_left(T2.keys())   sl0:t:1,2 / sl0:g:1,2  tuple / generator
+    sr0:…                    set_right
+    kl0 / vl0 / il0          x = T0.keys() / values() / items(); x if isinstance(x, list) else list(x)
+    it0                      list(A0)
+    rl0 / re0                look at L0 / M0
+    q0:<query>               a query of `c20.kt` on T0
+-/
+
+open C20H in
+def parseMut (cs : List Char) : Option (Mut Nat) :=
+  match cs with
+  | 'a' :: r => (natOfChars r).map .append
+  | 'i' :: r => (natOfChars r).map .insert0
+  | ['p'] => some .pop
+  | ['r'] => some .reverse
+  | ['c'] => some .clear
+  | _ => none
+
+def parseKeys (cs : List Char) : Option (List Nat) := parseText (String.ofList ('t' :: ':' :: cs))
+
+/-- split at the FIRST `:` -/
+def splitFirst (cs : List Char) : List Char × List Char :=
+  (cs.takeWhile (· != ':'), (cs.dropWhile (· != ':')).drop 1)
+
+open C20H in
+def parseSrc (cs : List Char) : Option (Src Nat) :=
+  match cs with
+  | 'L' :: r => (natOfChars r).map .ref
+  | 'K' :: r => (natOfChars r).map .keysOf
+  | 't' :: ':' :: r => (parseKeys r).map .lit
+  | 'g' :: ':' :: r => (parseKeys r).map .lit
+  | _ => none
+
+open C20H in
+def parseKSrc (cs : List Char) : Option (KSrc Nat) :=
+  match cs with
+  | 'l' :: ':' :: r => (parseKeys r).map .lit
+  | 't' :: ':' :: r => (parseKeys r).map .lit
+  | 'g' :: ':' :: r => (parseKeys r).map .lit
+  | 'm' :: r => (natOfChars r).map .elist
+  | 'v' :: r => (natOfChars r).map .valuesOf
+  | 'i' :: r => (natOfChars r).map .itemsOf
+  | 'c' :: r => match splitChars ',' r with
+    | [t, u] => match natOfChars t, natOfChars u with
+      | some t, some u => some (.concat t u)
+      | _, _ => none
+    | _ => none
+  | _ => none
+
+open C20H in
+def parseHeapOp (tok : String) : Option (C20H.Op Nat) :=
+  match tok.toList with
+  | ['a', 'r'] => some .newAR
+  | 'n' :: 'l' :: ':' :: r => (parseKeys r).map .newList
+  | 'n' :: 'e' :: ':' :: r => (parseKeys r).map .newEList
+  | 'm' :: 'l' :: r =>
+    let (x, m) := splitFirst r
+    match natOfChars x, parseMut m with
+    | some x, some m => some (.mutList x m)
+    | _, _ => none
+  | 'm' :: 'e' :: r =>
+    let (x, m) := splitFirst r
+    match natOfChars x, parseMut m with
+    | some x, some m => some (.mutEList x m)
+    | _, _ => none
+  | 'k' :: 't' :: ':' :: r => (parseKSrc r).map .newKT
+  | 's' :: 'l' :: r =>
+    let (a, s) := splitFirst r
+    match natOfChars a, parseSrc s with
+    | some a, some s => some (.setLeft a s)
+    | _, _ => none
+  | 's' :: 'r' :: r =>
+    let (a, s) := splitFirst r
+    match natOfChars a, parseSrc s with
+    | some a, some s => some (.setRight a s)
+    | _, _ => none
+  | 'k' :: 'l' :: r => (natOfChars r).map .keysToList
+  | 'v' :: 'l' :: r => (natOfChars r).map .valuesToList
+  | 'i' :: 'l' :: r => (natOfChars r).map .itemsToList
+  | 'i' :: 't' :: r => (natOfChars r).map .iterate
+  | 'r' :: 'l' :: r => (natOfChars r).map .readList
+  | 'r' :: 'e' :: r => (natOfChars r).map .readEList
+  | 'q' :: r =>
+    let (t, q) := splitFirst r
+    match natOfChars t, parseQ (String.ofList q) with
+    | some t, some q => some (.ask t q)
+    | _, _ => none
+  | _ => none
+
+open C20H in
+def showHeapOut : Out Nat → Option String
+  | .nothing => none
+  | .diff (.ok d) => some (showDiff d)
+  | .diff (.error e) => some e
+  | .keys ks => some ("keys[" ++ ",".intercalate (ks.map toString) ++ "]")
+  | .ents es => some s!"ents[{showIds es}]"
+  | .res r => some (showRes r)
+  | .badRef => some "badref"
+
+/-- c20.heap <op> <op> … : one history over the heap; result = what every observing operation saw -/
+def opHeap (toks : List String) : String :=
+  match toks.mapM parseHeapOp with
+  | some ops => " ".intercalate ((C20H.Heap.trace C20H.Heap.init ops).filterMap showHeapOut)
+  | none => "bad-args"
+
 def ops : List (String × (List String → String)) :=
-  [("ar", opAR), ("keyed", opKeyed), ("c20.sm", opSM), ("c20.specd", opSpecD), ("c20.kt", opKT)]
+  [("ar", opAR), ("keyed", opKeyed), ("c20.sm", opSM), ("c20.specd", opSpecD), ("c20.kt", opKT), ("c20.heap", opHeap)]
 end Ops.C20
